@@ -706,3 +706,14 @@ end Wormhole
 #print axioms Wormhole.C14_close_touch_counterexample
 #print axioms Wormhole.C14_close_crowded_counterexample
 #print axioms Wormhole.C14_claim_crowded_counterexample
+#print axioms Wormhole.Sys.dup_prefix
+#print axioms Wormhole.Sys.dup_claim
+#print axioms Wormhole.Sys.dup_release
+#print axioms Wormhole.Sys.dup_open
+#print axioms Wormhole.Sys.dup_close_gone
+#print axioms Wormhole.Sys.dup_close_survived
+#print axioms Wormhole.Sys.orig_claim
+#print axioms Wormhole.Sys.orig_release
+#print axioms Wormhole.Sys.orig_open
+#print axioms Wormhole.Sys.orig_close
+#print axioms Wormhole.dup_after_op
